@@ -9,7 +9,7 @@
                     group does not fit; never a panic.
    The oracles are written from the property texts and the WHATWG line structure; they do not use the
    model (no split_func, no scanner). *)
-From GoSse Require Import Base Lines FieldParser Whatwg WhatwgLines Split Scanner Reader ReadLoop Run.
+From GoSse Require Import Base Lines FieldParser Whatwg WhatwgLines Split Scanner Reader ReadLoop Yields Run.
 Local Open Scope nat_scope.
 
 (* ---- decoding ----------------------------------------------------------------------------- *)
@@ -32,9 +32,6 @@ Definition dec_case (i : val) : pcase :=
 (* connection-like entries report EOF and take retry values; only entries 2, 3 see them *)
 Definition pc_conn (c : pcase) : bool := (pc_entry c =? 1)%N || (pc_entry c =? 2)%N.
 Definition pc_sees_retry (c : pcase) : bool := (pc_entry c =? 2)%N.
-Definition is_retry (y : yield) : bool := match y with YRetry _ => true | _ => false end.
-Definition drop_retries (ys : list yield) : list yield := filter (fun y => negb (is_retry y)) ys.
-
 (* ---- the model ------------------------------------------------------------------------------ *)
 (* entries 2, 3 call Parser.Buffer iff hasbuf or max > 0, the Connection's rule *)
 Definition run_case (c : pcase) : list yield * run_end * parser :=
@@ -116,16 +113,6 @@ Definition may_complete (L : N) (s : bytes) : bool :=
 (* ---- yields ------------------------------------------------------------------------------------ *)
 Definition mode_of (c : pcase) : mode := if pc_conn c then gosse_conn else gosse_read.
 Definition pc_stream (c : pcase) : bytes := concat (pc_chunks c).
-
-(* the consumer answers false to event number k: nothing is yielded after it *)
-Fixpoint cut_after (k : nat) (ys : list yield) : list yield :=
-  match ys with
-  | [] => []
-  | YEv e :: r => match k with O => [YEv e] | S k' => YEv e :: cut_after k' r end
-  | y :: r => y :: cut_after k r
-  end.
-Definition firstn' (stop : option nat) (ys : list yield) : list yield :=
-  match stop with Some k => cut_after k ys | None => ys end.
 
 Definition visible (c : pcase) (ys : list yield) : list yield :=
   firstn' (pc_stop c) (if pc_sees_retry c then ys else drop_retries ys).
